@@ -191,12 +191,15 @@ def check_nickname(prior, written):
         return [("nick_write", f"{desc} -> {ret!r} exc={exc!r} err={obj.err!r}")]
     if board.nickname != written.strip():
         out.append(("nick_board", f"{desc}: board stores {board.nickname!r}"))
+    if obj.name != written.strip():
+        out.append(("nick_name", f"{desc}: the object now calls the board {obj.name!r}, the "
+                    f"board stores {board.nickname!r}"))
     obj.name = "stale"
     _ret, exc = call(obj, "query_nickname", ())
     want = written.strip()
     if exc is not None or obj.err is not None:
         out.append(("nick_read", f"{desc} then query_nickname(): exc={exc!r} err={obj.err!r}"))
-    elif want and obj.name != want:
+    elif obj.name != want:
         out.append(("nick_read", f"{desc} then query_nickname(): name={obj.name!r}, expected "
                     f"{want!r}"))
     return out
@@ -380,7 +383,7 @@ def run(ctx):
         "EBB3Board implements EM/QE/SL/QL/ST/QT as documented in the EBB command reference: "
         "EM,e1,e2 with e1 in 1..5 sets the global microstep mode and enables motor 1, e1=0 "
         "disables motor 1; e2 != 0 enables motor 2 at the current global mode",
-        "nickname '' reads back as an empty reply (self.name is then left unchanged)",
+        "a cleared nickname reads back as the empty string",
     ]
     return {"part": part, "coverage": coverage, "assumptions": assumptions}
 
